@@ -42,7 +42,7 @@ from taskiq.abc.broker import AsyncBroker  # noqa: E402
 from taskiq.abc.middleware import TaskiqMiddleware  # noqa: E402
 from taskiq.abc.result_backend import AsyncResultBackend  # noqa: E402
 from taskiq.acks import AckableMessage, AcknowledgeType  # noqa: E402
-from taskiq.exceptions import NoResultError, ResultSetError  # noqa: E402
+from taskiq.exceptions import NoResultError, ResultSetError, TaskRejectedError  # noqa: E402
 from taskiq.message import TaskiqMessage  # noqa: E402
 from taskiq.receiver import Receiver  # noqa: E402
 
@@ -183,7 +183,7 @@ class RecordingBackend(AsyncResultBackend[Any]):
             cls = "nores"
         elif isinstance(err, (asyncio.TimeoutError, TimeoutError)):
             cls = "timeout"
-        elif isinstance(err, BodyError):
+        elif isinstance(err, (BodyError, TaskRejectedError)):
             cls = "exc"
         elif isinstance(err, BodyBaseError):
             cls = "base"
@@ -195,14 +195,23 @@ class RecordingBackend(AsyncResultBackend[Any]):
             cls = "sysexit"
         else:
             cls = "other:" + type(err).__name__
+        # what a networked result backend does with it: JSON text and back (labels left out: not part of this property)
+        try:
+            back = type(result).model_validate_json(result.model_copy(update={"labels": {}}).model_dump_json())
+            rt_ok = back.is_err == result.is_err and (
+                (err is None and back.error is None and back.return_value == result.return_value)
+                or (err is not None and isinstance(back.error, BaseException)
+                    and (type(back.error) is type(err) or type(err).__name__ in str(back.error))))   # stand-in naming the class
+        except Exception:  # noqa: BLE001
+            rt_ok = False
         flags = 0
         if result.is_err:
             flags |= 1
-        if m in env.returned and result.return_value == env.returned[m] and not result.is_err:
+        if m in env.returned and result.return_value == env.returned[m] and not result.is_err and rt_ok:
             flags |= 2
         if {k_: v_ for k_, v_ in result.labels.items() if k_ != "_gen"} == env.msg_labels.get(m):
             flags |= 4
-        if err is not None and (env.raised.get(m) is err or cls in ("timeout", "depfail")):
+        if err is not None and (env.raised.get(m) is err or cls in ("timeout", "depfail")) and rt_ok:
             flags |= 8
         if err is not None and result.return_value is None:
             flags |= 16
@@ -282,6 +291,8 @@ def make_middleware(env: Env, idx: int, spec: Dict[str, Any]) -> TaskiqMiddlewar
         if mode:
             ns[HOOK_ATTR[hook]] = gen(hook, mode)
     cls = type(f"VMw{idx}", (TaskiqMiddleware,), ns)
+    if idx % 2 == 0:
+        cls = type(f"VMw{idx}Derived", (cls,), {"__doc__": "inherits every hook from its base middleware"})
     return cls()
 
 
@@ -386,8 +397,10 @@ def make_tasks(env: Env, broker: ScriptedBroker, cfg: Dict[str, Any]) -> None:
             val = {"echo": i, "v": [i, "x" * (i % 3), {"k": i * 1.5}]}
             env.returned[i] = val
             return val
-        if outcome == "exc":
-            exc: BaseException = BodyError(f"boom {i}", i)
+        if outcome == "exc" and i % 5 == 0:
+            exc: BaseException = TaskRejectedError()      # what Context.reject() raises: an ordinary failure of the execution
+        elif outcome == "exc":
+            exc = BodyError(f"boom {i}", i)
         elif outcome == "falsy":
             exc = FalsyError(f"empty {i}")
         elif outcome == "base":
@@ -756,7 +769,9 @@ def _run_cli(scn: Dict[str, Any], cfg: Dict[str, Any], loop: VLoop, env: Env, br
     # options that must NOT influence flow control, with values that would show if they leaked into it
     if len(cfg["msgs"]) % 2 == 0:
         argv += ["--max-process-pool-processes", "11", "--max-threadpool-threads", "13", "--shutdown-timeout", "17",
-                 "--max-fails", "19", "--workers", "23", "--hardkill-count", "29", "--log-level", "ERROR", "--tasks-pattern", "x.py"]
+                 "--max-fails", "19", "--workers", "23", "--log-level", "ERROR", "--tasks-pattern", "x.py"]
+    # one stop signal never is a hard kill, whatever --hardkill-count says (0 = the second signal kills)
+    argv += ["--hardkill-count", ("0", "29", "1")[len(cfg["msgs"]) % 3]]
     if cfg.get("ack", "default") != "default":
         argv += ["--ack-type", cfg["ack"]]
     if cfg.get("N"):
@@ -773,7 +788,10 @@ def _run_cli(scn: Dict[str, Any], cfg: Dict[str, Any], loop: VLoop, env: Env, br
     def request_stop() -> None:
         finish.set()
         sig = which[len(env.events) % 2]
-        handlers[sig](sig, None)
+        try:
+            handlers[sig](sig, None)
+        except KeyboardInterrupt:
+            env.rec("loop_crash", s="KeyboardInterrupt")      # the worker process dies here instead of draining
 
     calls = [0]
 
